@@ -14,4 +14,11 @@ PROPS = {
         "assumptions": ["n = len(activeNodes) >= 0 and configured count w >= 0 (Go ints; w < 0 is not a meaningful configuration)"],
         "theorem_status": {"all": "full: proved for all n, w about the definitions regenerated from the source on this run"},
     },
+    "C13": {
+        "corr": ["Corr/C13.vo"],
+        "harness": [{"pkg": APP, "test": "TestVerifC13"}],
+        "trusted": ["go-mysql's sort.Search in IntervalSlice.Contain is modelled as first-match over the normalized slice, Normalize() as insertion into a normalized list (same input/output relation); uuids and tags are numbered by the harness; GTID string rendering/parsing is exercised but not modelled character by character"],
+        "assumptions": ["sets are what ParseGTIDSet produces (wf: distinct uuids, >=1 tag per uuid, non-empty normalized slices) - checked per case by wfb in the correspondence"],
+        "theorem_status": {"all": "full: proved for all well-formed GTID sets / all non-empty position lists"},
+    },
 }
